@@ -15,6 +15,7 @@
 package ggql
 
 import (
+	"math"
 	"strconv"
 )
 
@@ -41,7 +42,7 @@ func (*intScalar) CoerceIn(v interface{}) (interface{}, error) {
 	case nil:
 		// remains nil
 	case int:
-		v = int32(tv)
+		v, err = toInt32(int64(tv), v)
 	case int8:
 		v = int32(tv)
 	case int16:
@@ -49,28 +50,52 @@ func (*intScalar) CoerceIn(v interface{}) (interface{}, error) {
 	case int32:
 		// ok as is
 	case int64:
-		v = int32(tv)
+		v, err = toInt32(tv, v)
 	case uint:
-		v = int32(tv)
+		v, err = uintToInt32(uint64(tv), v)
 	case uint8:
 		v = int32(tv)
 	case uint16:
 		v = int32(tv)
 	case uint32:
-		v = int32(tv)
+		v, err = uintToInt32(uint64(tv), v)
 	case uint64:
-		v = int32(tv)
+		v, err = uintToInt32(tv, v)
 	case float64:
 		// Needed for nested types since the go JSON parser always emits float64 even if an integer.
-		v = int32(tv)
-		if float64(int32(tv)) != tv {
-			err = newCoerceErr(v, "Int")
-		}
+		v, err = floatToInt32(tv, v, true)
 	default:
 		err = newCoerceErr(v, "Int")
 		v = nil
 	}
 	return v, err
+}
+
+// toInt32 converts to an int32 if the value is in the range of a GraphQL Int
+// otherwise a coerce error is returned.
+func toInt32(i int64, v interface{}) (interface{}, error) {
+	if i < math.MinInt32 || math.MaxInt32 < i {
+		return nil, newCoerceErr(v, "Int")
+	}
+	return int32(i), nil
+}
+
+func uintToInt32(u uint64, v interface{}) (interface{}, error) {
+	if math.MaxInt32 < u {
+		return nil, newCoerceErr(v, "Int")
+	}
+	return int32(u), nil
+}
+
+// floatToInt32 converts a float in the range of a GraphQL Int to an int32
+// otherwise a coerce error is returned. If exact is true the float must have
+// an integer value.
+func floatToInt32(f float64, v interface{}, exact bool) (interface{}, error) {
+	t := math.Trunc(f)
+	if !(math.MinInt32 <= t && t <= math.MaxInt32) || (exact && t != f) { // NaN fails the range check
+		return nil, newCoerceErr(v, "Int")
+	}
+	return int32(t), nil
 }
 
 // CoerceOut coerces a result value into a type for the scalar.
@@ -80,11 +105,11 @@ func (t *intScalar) CoerceOut(v interface{}) (interface{}, error) {
 	case nil:
 		// remains nil
 	case float32:
-		v = int32(tv)
+		v, err = floatToInt32(float64(tv), v, false)
 	case float64:
-		v = int32(tv)
+		v, err = floatToInt32(tv, v, false)
 	case int:
-		v = int32(tv)
+		v, err = toInt32(int64(tv), v)
 	case int8:
 		v = int32(tv)
 	case int16:
@@ -92,21 +117,23 @@ func (t *intScalar) CoerceOut(v interface{}) (interface{}, error) {
 	case int32:
 		// ok as is
 	case int64:
-		v = int32(tv)
+		v, err = toInt32(tv, v)
 	case uint:
-		v = int32(tv)
+		v, err = uintToInt32(uint64(tv), v)
 	case uint8:
 		v = int32(tv)
 	case uint16:
 		v = int32(tv)
 	case uint32:
-		v = int32(tv)
+		v, err = uintToInt32(uint64(tv), v)
 	case uint64:
-		v = int32(tv)
+		v, err = uintToInt32(tv, v)
 	case string:
 		var i int64
 		if i, err = strconv.ParseInt(tv, 10, 64); err == nil {
-			v = int32(i)
+			v, err = toInt32(i, v)
+		} else {
+			v = nil
 		}
 	default:
 		err = newCoerceErr(tv, "Int")
